@@ -21,7 +21,11 @@ pub struct QueueReader<'a, T: Read + Seek> {
     buffer_sizes: Vec<usize>,
     byte_streams: Vec<ByteStreamReadBuffer>,
     queues: Vec<VecDeque<RecordValue>>,
+    /// Value of records that store no bits per point (min == max), they are never queued
+    fixed_values: Vec<Option<RecordValue>>,
     all_zero_bits: bool,
+    /// Number of generated points for point clouds that store no bits at all
+    generated: usize,
 }
 
 /// Number of points generated per step for point clouds that do not store any bits per point.
@@ -41,8 +45,25 @@ impl<'a, T: Read + Seek> QueueReader<'a, T> {
         let all_zero_bits = !pc.prototype.is_empty()
             && pc.prototype.iter().all(|r| r.data_type.bit_size() == 0);
 
+        // Records with a fixed value are defined by the prototype alone
+        let fixed_values = pc
+            .prototype
+            .iter()
+            .map(|r| match r.data_type {
+                RecordDataType::Integer { min, .. } if r.data_type.bit_size() == 0 => {
+                    Some(RecordValue::Integer(min))
+                }
+                RecordDataType::ScaledInteger { min, .. } if r.data_type.bit_size() == 0 => {
+                    Some(RecordValue::ScaledInteger(min))
+                }
+                _ => None,
+            })
+            .collect();
+
         Ok(Self {
             all_zero_bits,
+            fixed_values,
+            generated: 0,
             pc: pc.clone(),
             reader,
             buffer: Vec::new(),
@@ -57,9 +78,16 @@ impl<'a, T: Read + Seek> QueueReader<'a, T> {
         if self.queues.is_empty() {
             return 0;
         }
+        if self.all_zero_bits {
+            return self.generated;
+        }
 
         let mut av = usize::MAX;
-        for q in &self.queues {
+        for (i, q) in self.queues.iter().enumerate() {
+            // Records with a fixed value never limit the number of available points
+            if self.fixed_values[i].is_some() {
+                continue;
+            }
             let len = q.len();
             if len < av {
                 av = len;
@@ -72,10 +100,20 @@ impl<'a, T: Read + Seek> QueueReader<'a, T> {
     /// Use an existing vector with enough capacity to avoid frequent reallocations!
     pub fn pop_point(&mut self, output: &mut RawValues) -> Result<()> {
         output.clear();
-        for i in 0..self.pc.prototype.len() {
-            let value = self.queues[i]
-                .pop_front()
+        if self.all_zero_bits {
+            self.generated = self
+                .generated
+                .checked_sub(1)
                 .internal_err("Failed to pop value for next point")?;
+        }
+        for i in 0..self.pc.prototype.len() {
+            let value = if let Some(fixed) = &self.fixed_values[i] {
+                fixed.clone()
+            } else {
+                self.queues[i]
+                    .pop_front()
+                    .internal_err("Failed to pop value for next point")?
+            };
             output.push(value);
         }
         Ok(())
@@ -86,8 +124,8 @@ impl<'a, T: Read + Seek> QueueReader<'a, T> {
         // Point clouds without any stored bits per point have no data to read.
         // All values are defined by the prototype and are generated in bounded steps.
         if self.all_zero_bits {
-            let target = self.available() + GENERATED_POINTS_PER_STEP;
-            return self.parse_byte_streams(target);
+            self.generated += GENERATED_POINTS_PER_STEP;
+            return Ok(());
         }
 
         let packet_header = PacketHeader::read(self.reader)?;
@@ -135,28 +173,13 @@ impl<'a, T: Read + Seek> QueueReader<'a, T> {
                     self.reader
                         .read_exact(&mut self.buffer)
                         .read_err("Failed to read data packet buffers")?;
-                    self.byte_streams[i].append(&self.buffer);
-                }
-
-                // Find smallest number of expected items in any queue after stream unpacking.
-                // This is required for the corner case when the bit size of an record
-                // is zero and we don't know how many items to "unpack" from an empty buffer.
-                // This happens for example with integer values where min=max, because all values are equal.
-                let mut min_queue_size = usize::MAX;
-                for (i, bs) in self.byte_streams.iter().enumerate() {
-                    let bit_size = self.pc.prototype[i].data_type.bit_size();
-                    // We can only check records with a non-zero bit size
-                    if bit_size != 0 {
-                        let bs_items = bs.available() / bit_size;
-                        let queue_items = self.queues[i].len();
-                        let items = bs_items + queue_items;
-                        if items < min_queue_size {
-                            min_queue_size = items;
-                        }
+                    // Nothing is ever unpacked from the byte stream of a record with a fixed value
+                    if self.fixed_values[i].is_none() {
+                        self.byte_streams[i].append(&self.buffer);
                     }
                 }
 
-                self.parse_byte_streams(min_queue_size)?;
+                self.parse_byte_streams()?;
             }
         };
 
@@ -166,7 +189,7 @@ impl<'a, T: Read + Seek> QueueReader<'a, T> {
     }
 
     /// Extracts raw values from byte streams into queues.
-    fn parse_byte_streams(&mut self, min_queue_size: usize) -> Result<()> {
+    fn parse_byte_streams(&mut self) -> Result<()> {
         for (i, r) in self.pc.prototype.iter().enumerate() {
             match r.data_type {
                 RecordDataType::Single { .. } => {
@@ -176,16 +199,8 @@ impl<'a, T: Read + Seek> QueueReader<'a, T> {
                     BitPack::unpack_doubles(&mut self.byte_streams[i], &mut self.queues[i])?
                 }
                 RecordDataType::ScaledInteger { min, max, .. } => {
-                    if r.data_type.bit_size() == 0 {
-                        // If the bit size of an record is zero, we don't know how many items to unpack.
-                        // Thats because they are not really unpacked, but instead generated with a predefined value.
-                        // Since this can only happen when min=max we know that min is the expected value.
-                        // We use the supplied minimal size to ensure that we create enough items
-                        // to fill the queue enough to not be the limiting queue.
-                        while self.queues[i].len() < min_queue_size {
-                            self.queues[i].push_back(RecordValue::ScaledInteger(min));
-                        }
-                    } else {
+                    // Records with a fixed value (min == max) have nothing to unpack, see `fixed_values`
+                    if r.data_type.bit_size() != 0 {
                         BitPack::unpack_scaled_ints(
                             &mut self.byte_streams[i],
                             min,
@@ -195,12 +210,7 @@ impl<'a, T: Read + Seek> QueueReader<'a, T> {
                     }
                 }
                 RecordDataType::Integer { min, max } => {
-                    if r.data_type.bit_size() == 0 {
-                        // See comment above for scaled integers!
-                        while self.queues[i].len() < min_queue_size {
-                            self.queues[i].push_back(RecordValue::Integer(min));
-                        }
-                    } else {
+                    if r.data_type.bit_size() != 0 {
                         BitPack::unpack_ints(
                             &mut self.byte_streams[i],
                             min,
